@@ -173,7 +173,7 @@ Theorem sync_round_decides_on_model_faulty (pol : list Sync.polka) (fresh : Sync
   (forall m, In m ms -> exists a pw, nth_error vals (m_idx m) = Some (a, pw) /\ a <> 0%N /\ 0 <= pw) ->
   (forall m, In m ms -> ready_core (m_env m) h r p b hb ph (map m_idx ms) vals (m_state m) /\ lock_wf r b hb ph (m_state m)) ->
   SyncWeak.InvL pol (nodes vals ms) ->
-  (forall n, In n (nodes vals ms) -> Sync.unlock pol n = n) ->
+  (forall m q, In m ms -> In q pol -> fst q <= r /\ holds_polka (m_state m) q) ->
   In mp ms ->
   hb = Sync.proposal_of fresh (Sync.unlock pol (abs (power_of vals (m_idx mp)) (m_state mp))) ->
   total_power vals = Sync.total_power (nodes vals ms) + faulty_power -> 0 <= faulty_power ->
@@ -198,15 +198,12 @@ Proof.
   assert (Hpn : In (abs (power_of vals (m_idx mp)) (m_state mp)) (nodes vals ms)).
   { unfold nodes. apply in_map_iff. exists mp. auto. }
   pose proof (SyncWeak.good_round_prevotes pol (nodes vals ms) hb HInv Hprem) as Un.
-  assert (Hlock : forall m0, In m0 ms -> lock_ok r b ph (m_state m0)).
+  assert (Hlock : forall m0, In m0 ms -> lock_ok r b ph (unlock_known r (m_state m0))).
   { intros m0 Hm0.
-    assert (Hn : In (abs (power_of vals (m_idx m0)) (m_state m0)) (map (Sync.unlock pol) (nodes vals ms))).
-    { apply in_map_iff. exists (abs (power_of vals (m_idx m0)) (m_state m0)).
-      assert (Hn0 : In (abs (power_of vals (m_idx m0)) (m_state m0)) (nodes vals ms)) by (unfold nodes; apply in_map_iff; exists m0; auto).
-      split; [apply Hset; exact Hn0 | exact Hn0]. }
-    specialize (Un _ Hn). unfold Sync.prevote_of, abs in Un. cbn [Sync.n_lock] in Un.
-    unfold lock_ok. destruct (cs_lblock (m_state m0)) as [lb|] eqn:El; [|left; reflexivity].
-    right. destruct (proj2 (Hrdy m0 Hm0) lb El Un) as (-> & Lb2 & Lb3). auto. }
+    assert (Hn : In (Sync.unlock pol (abs (power_of vals (m_idx m0)) (m_state m0))) (map (Sync.unlock pol) (nodes vals ms))).
+    { apply in_map. unfold nodes. apply in_map_iff. exists m0. auto. }
+    apply (sync_lock_ok r b hb ph pol (power_of vals (m_idx m0)) (m_state m0) (proj2 (Hrdy m0 Hm0)));
+      [intros q Hq; exact (Hset m0 q Hm0 Hq) | exact (Un _ Hn)]. }
   assert (Hcp : correct_power vals ms = total_power vals - faulty_power).
   { unfold nodes in Htot. rewrite total_power_nodes in Htot. lia. }
   assert (Epw : pw_of vals (idxs ms) = correct_power vals ms).
